@@ -37,6 +37,11 @@ class SetupCfgWriter(DependencyWriter):
             logger.debug("Unable to add dependencies to setup.cfg file.")
             return None
 
+        if defined_dependencies.strip().startswith("file:"):
+            # the requirements live in the files named by the `file:` directive
+            logger.debug("Unable to add dependencies to setup.cfg file.")
+            return None
+
         with open(self.path, "r", encoding="utf-8") as f:
             original_lines = f.readlines()
 
